@@ -26,6 +26,7 @@ package proto
 //@ ghost field (StateDecoder) statelen Int
 
 //@ interface ColumnOf.Rows(c) (n)
+//@   ensures n <= 9223372036854775807
 //@   ensures n == c.nrows && 0 <= n
 //@ interface ColumnOf.Reset(c)
 //@   modifies c.nrows
@@ -210,6 +211,26 @@ package proto
 //@   ensures len(b.Buf) >= old(len(b.Buf)) + 8 * len(c.Offsets) && imgColUInt64(arrayof(b.Buf), offset(b.Buf) + old(len(b.Buf)), c.Offsets, len(c.Offsets)) {offsets-first}
 //@ callsite ColumnOf.EncodeColumn
 //@   assert len(b.Buf) == old(len(b.Buf)) + 8 * len(c.Offsets) {element-data-follows-the-offsets-immediately}
+
+//@ -- appending rows to an Array column: every new row's offset is the running total of element rows
+//@ -- (continuing from what the column already holds), earlier offsets are untouched
+//@ contract (c *ColArr) Append(v) props(C16)
+//@   requires c != nil && c.Data != nil && (len(c.Offsets) > 0 ==> c.Offsets[len(c.Offsets) - 1] == c.Data.nrows) && c.Data.nrows + len(v) < 9223372036854775807
+//@   modifies c.Offsets, contents(c.Offsets), c.Data.nrows, c.Data.vals
+//@   ensures len(c.Offsets) == old(len(c.Offsets)) + 1 && c.Offsets[len(c.Offsets) - 1] == old(c.Data.nrows) + len(v) && c.Data.nrows == old(c.Data.nrows) + len(v) {one-row-whose-offset-is-the-new-total}
+//@   ensures forall k in 0..old(len(c.Offsets)) :: c.Offsets[k] == old(c.Offsets[k]) {earlier-rows-untouched}
+//@ contract (c *ColArr) AppendArr(vs) props(C16)
+//@   requires c != nil && c.Data != nil && (len(c.Offsets) > 0 ==> c.Offsets[len(c.Offsets) - 1] == c.Data.nrows) && 0 <= c.Data.nrows && c.Data.nrows <= maxRowsInBLock
+//@   modifies c.Offsets, contents(c.Offsets), c.Data.nrows, c.Data.vals
+//@   ensures len(c.Offsets) == old(len(c.Offsets)) + len(vs) {one-row-per-slice}
+//@   ensures len(c.Offsets) > 0 ==> c.Offsets[len(c.Offsets) - 1] == c.Data.nrows {last-offset-is-the-element-total}
+//@   ensures forall k in 0..old(len(c.Offsets)) :: c.Offsets[k] == old(c.Offsets[k]) {earlier-rows-untouched}
+//@   ensures c.Data.nrows >= old(c.Data.nrows) {element-rows-only-grow}
+//@ loop 0 (rangeindex)
+//@   modifies c.Offsets, contents(c.Offsets), c.Data.nrows, c.Data.vals
+//@   invariant len(c.Offsets) == old(len(c.Offsets)) + rangeindex + 1 && c.Data.nrows >= old(c.Data.nrows)
+//@   invariant len(c.Offsets) > 0 ==> c.Offsets[len(c.Offsets) - 1] == c.Data.nrows
+//@   invariant forall k in 0..old(len(c.Offsets)) :: c.Offsets[k] == old(c.Offsets[k])
 
 //@ -- Nullable(T) on the wire: one null-mask byte per row, then the values
 //@ contract (c ColNullable) EncodeColumn(b) props(C01,C16)
@@ -919,6 +940,18 @@ package proto
 //@   requires s != nil && r != nil && 0 <= b.Rows && b.Rows <= maxRowsInBLock && 0 <= b.Columns && b.Columns <= maxColumnsInBlock
 //@   modifies all(s), r.pos, r.failed, r.b.Buf
 //@   ensures err == nil ==> r.failed == old(r.failed)
+//@ -- the per-column custom-serialization flag exists on the wire from revision 54454 on
+//@ callsite (*Reader).Bool
+//@   assert version >= 54454 [C01,C06,C17] {custom-serialization-flag-only-from-54454}
 //@ loop 0 (i)
 //@   modifies all(s), r.pos, r.failed, r.b.Buf
 //@   invariant 0 <= i && r.failed == old(r.failed)
+
+//@ -- the column header of the vectored path is encoded for the NEGOTIATED revision (the one
+//@ -- WriteBlock was called with), exactly as EncodeRawBlock does
+//@ contract (b Block) WriteBlock$2(buf) props(C02,C14)
+//@   inline
+//@   requires buf != nil
+//@   modifies buf.Buf
+//@ callsite (InputColumn).EncodeStart
+//@   assert arg2 == *version {column-header-for-the-negotiated-revision}
